@@ -32,6 +32,20 @@ static void v32_constants(void)
 	V32K(-0x7fffffff); V32K(1); V32K(0x40000000); V32K(0x80000000); V32K(0xffffffffu); V32K(-1L); V32K(-256LL); V32K('\377');
 	V32K(~1u); V32K(1 << 30); V32K(-(1 << 30)); V32K(0x7fffffff); V32K(65535); V32K(-32768);
 }
+/* an argument expression with a side effect (a read-to-clear register, an iterator): evaluated exactly once */
+static uint32_t se_vals[4], se_k;
+static uint32_t se_next(void) { return se_vals[se_k++ & 3]; }
+static void vse(uint32_t a, uint32_t b)
+{
+	int r[4], ev[4];
+	se_vals[0] = a; se_vals[1] = b; se_vals[2] = a; se_vals[3] = b;
+	se_k = 0; r[0] = bitcnt(se_next()); ev[0] = se_k;
+	se_k = 0; r[1] = clz(se_next()); ev[1] = se_k;
+	se_k = 0; r[2] = ctz(se_next()); ev[2] = se_k;
+	se_k = 0; r[3] = a ? ilog2(se_next()) : -1; ev[3] = a ? (int)se_k : 1;
+	printf("{\"e\":\"BSE\",\"x\":[%u,%u,%u,%u],\"r\":[%d,%d,%d,%d],\"evals\":[%d,%d,%d,%d]}\n", a & 0xff, (a >> 8) & 0xff, (a >> 16) & 0xff, a >> 24,
+	       r[0], r[1], r[2], r[3], ev[0], ev[1], ev[2], ev[3]);
+}
 static void v64(uint64_t c, int popk, int lssbk)
 {
 	volatile uint64_t rt = c;         /* run-time value: the macros expand to inline code */
@@ -55,6 +69,8 @@ static void vectors(long seed, long nrandom)
 	drv_srand(seed);
 	v32(0); v32(0xffffffffu);
 	v32_constants();
+	vse(0x10, 0x3); vse(0x3, 0x10); vse(0x80000000u, 1); vse(1, 0x80000000u); vse(0, 0xffffffffu); vse(0xffffffffu, 0); vse(0xf0, 0x0f00);
+	for (int i = 0; i < 40; i++) vse(drv_rand(), drv_rand());
 	for (int i = 0; i < 32; i++) {
 		v32(1u << i); v32(~(1u << i));
 		for (int j = i + 1; j < 32; j++) { v32((1u << i) | (1u << j)); }
